@@ -337,7 +337,20 @@ async fn main(plan: Plan) -> Outcome {
         let res: Result<Result<(), String>, _> = if via_query {
             let text = if case_sensitive { format!("USE \"{name}\"") } else { format!("USE {name}") };
             out.count("use_via_query", 1);
-            tokio::time::timeout(Duration::from_secs(120), async { session.query_unpaged(text, ()).await.map(|_| ()).map_err(|e| e.to_string()) }).await
+            // ... unpaged, as one manually fetched page, or through the paging iterator.
+            match tape::choose("c20:via_query_api", 3) {
+                0 => tokio::time::timeout(Duration::from_secs(120), async { session.query_unpaged(text, ()).await.map(|_| ()).map_err(|e| e.to_string()) }).await,
+                1 => {
+                    tokio::time::timeout(Duration::from_secs(120), async {
+                        session.query_single_page(text, (), scylla::response::PagingState::start()).await.map(|_| ()).map_err(|e| e.to_string())
+                    })
+                    .await
+                }
+                _ => {
+                    out.count("use_via_query_iter", 1);
+                    tokio::time::timeout(Duration::from_secs(120), async { session.query_iter(text, ()).await.map(|_| ()).map_err(|e| e.to_string()) }).await
+                }
+            }
         } else {
             tokio::time::timeout(Duration::from_secs(120), async { session.use_keyspace(name, case_sensitive).await.map_err(|e| e.to_string()) }).await
         };
